@@ -193,6 +193,11 @@ func newC15World(r *rng, detached bool) *c15World {
 	mustGit(w.a, "push", "-q", "origin", "--all")
 	mustGit(w.a, "push", "-q", "origin", "--tags")
 	mustGit(w.a, "fetch", "-q", "origin")
+	// host branches that are ahead of the remote, and one the remote does not have: nothing of
+	// git-bug's may publish them
+	mustGit(w.a, "branch", "-f", "feature", "HEAD")
+	mustGit(w.a, "commit", "-q", "--allow-empty", "-m", "local only")
+	mustGit(w.a, "branch", "unpublished")
 	mustGit(w.a, "update-ref", "refs/notes/commits", "HEAD")
 	mustGit(w.a, "update-ref", "refs/bugsnag/x", "HEAD")
 	mustGit(w.a, "update-ref", "refs/remotes/origin/bugs-backlog", "HEAD")
@@ -202,6 +207,19 @@ func newC15World(r *rng, detached bool) *c15World {
 		mustGit(w.a, "config", kv[0], kv[1])
 	}
 	mustGit(w.a, "config", "--add", "remote.origin.fetch", "+refs/pull/*/head:refs/remotes/origin/pr/*")
+	// the host's own identity settings, in forms stock git accepts (it cleans them when it writes a commit)
+	switch r.intn(4) {
+	case 0:
+		mustGit(w.a, "config", "user.name", "Alice <ops>")
+		mustGit(w.a, "config", "user.email", "<alice@example.com>")
+	case 1:
+		mustGit(w.a, "config", "author.name", "Au <thor>")
+		mustGit(w.a, "config", "author.email", "<au@example.com>")
+		mustGit(w.a, "config", "committer.name", "Com\nmit.")
+	case 2:
+		mustGit(w.a, "config", "committer.email", "  c@example.com> ")
+		mustGit(w.a, "config", "author.name", "\"Quoted, Name\"")
+	}
 	os.WriteFile(filepath.Join(w.a, ".git", "hooks", "pre-commit"), []byte("#!/bin/sh\nexit 0\n"), 0o755)
 	os.WriteFile(filepath.Join(w.a, ".git", "info", "exclude"), []byte("*.tmp\n"), 0o644)
 	// dirty working tree: modified, staged, untracked
@@ -315,6 +333,9 @@ func c15Session(c *runCtx, r *rng, gb string, n int) {
 		}
 		return out
 	}
+	// before git-bug holds anything: a push and a pull have nothing of git-bug's to move, and move nothing else
+	act(w.a, "push", "origin")
+	act(w.b, "pull", "origin")
 	must(w.a, "user", "new", "-n", "Ann Host", "-e", "ann@example.com", "--non-interactive")
 	must(w.b, "user", "new", "-n", "Bob Clone", "-e", "bob@example.com", "--non-interactive")
 	must(w.a, "bug", "new", "-t", "first "+pickOne(r, titlePool[:3]), "-m", pickOne(r, messagePool[:4]))
@@ -449,6 +470,11 @@ func c15Session(c *runCtx, r *rng, gb string, n int) {
 		}
 		c.violation(c.nCases, "C15/wipe-left-refs", fmt.Sprintf("refs of git-bug remain after wipe: %v; wipe said (err=%v): %s (session %v)", left, werr, trunc(wout, 300), log), nil)
 	}
+	// after the wipe the repository is a plain host repository again, with work of its own to publish some day
+	gitIn(w.b, "commit", "-q", "--allow-empty", "-m", "host work in B")
+	gitIn(w.b, "branch", "b-unpublished")
+	snapA, snapB, snapO = hostSnapshot(w.a, false), hostSnapshot(w.b, false), hostSnapshot(w.origin, true)
+	act(w.b, "push", "origin")
 }
 
 // c15ReadAll: every bug with its operation ids and the availability of every attached file
